@@ -151,6 +151,11 @@ def mgr_state(res):
                       and t["role"] != "manager"))
     if dead:
         ctx.append("blocked-on-dead:" + "+".join(dead))
+    if not any(t["pid"] == 100 and t["role"] == "manager" for t in (res.sched.snapshot or [])):
+        for i in res.obs.executors.values():
+            if i["flags"].shutdown and any(res.kernel.procs[pid].alive for pid in i["processes"]):
+                ctx.append("late-worker-in-finished-executor")
+                break
     if getattr(res.sched, "livelock_pollers", None) and res.outcome == "livelock":
         pol = []
         for t in (res.sched.snapshot or []):
